@@ -19,7 +19,7 @@ HERE = os.path.dirname(os.path.abspath(__file__))
 VERIF = os.path.dirname(HERE)
 REPO = os.environ.get('VERIF_REPO', '/repo')
 WORK = os.path.join(VERIF, '.work')
-KANI_TIMEOUT = int(os.environ.get('VERIF_KANI_TIMEOUT', '1500'))
+KANI_TIMEOUT = int(os.environ.get('VERIF_KANI_TIMEOUT', '7200'))
 
 LABEL = re.compile(r'^//\s*@([C0-9,]+)\s+(\S+)\s+(complete|bounded\([^)]*\))(\s+thorough)?\s*$')
 
@@ -81,10 +81,11 @@ def run(prop, tier, harnesses):
     t0 = time.time()
     d = workdir()
     names = [h['name'] for h in harnesses]
-    cmd = ['cargo', 'kani', '-Z', 'stubbing', '-Z', 'function-contracts', '--output-format', 'terse']
+    cmd = ['cargo', 'kani', '-Z', 'stubbing', '-Z', 'function-contracts', '-Z', 'unstable-options',
+           '--harness-timeout', '420s' if tier == 'quick' else '1500s', '--output-format', 'terse']
     for n in names:
         cmd += ['--harness', n]
-    res = {'obligations': [], 'failed': {}, 'cmds': [' '.join(cmd[:8]) + ' --harness <each of %d>' % len(names)],
+    res = {'obligations': [], 'failed': {}, 'cmds': [' '.join(cmd[:11]) + ' --harness <each of %d>' % len(names)],
            'bounded': [], 'complete': [], 'functions': [], 'trusted': [], 'assumptions': [], 'wall_s': {}}
     # serialise kani runs across concurrently running checks (shared target dir)
     lock = open(os.path.join(WORK, 'kani.lock'), 'w')
@@ -136,7 +137,17 @@ def run(prop, tier, harnesses):
         mt = re.search(r'Verification Time: ([0-9.]+)s', txt)
         if mt:
             res['wall_s'][n] = float(mt.group(1))
+    # a harness CBMC gave up on (time / memory) is undecided, never a violation
+    timed_out = {n for n, lns in per.items() if any('CBMC timed out' in l or 'out of memory' in l.lower() for l in lns)}
+    failed_names -= timed_out
+    for n in sorted(timed_out):
+        hh = next((h for h in harnesses if h['name'] == n), None)
+        if hh and hh['mode'] == 'complete':
+            res['undecided'] = f'kani harness {n} exceeded its time/memory limit'
     for h in harnesses:
+        if h['name'] in timed_out and h['mode'] != 'complete':
+            res['bounded'].append({'obligation': h['id'], 'bound': h['mode'], 'harness': h['name'], 'result': 'not decided: CBMC time limit'})
+            continue
         ob = {'id': h['id'], 'harness': h['name'], 'text': f"{h['module']}::{h['name']} ({h['mode']})", 'mode': h['mode']}
         if h['mode'] == 'complete':
             res['complete'].append(h['id'])
